@@ -21,8 +21,9 @@ Bind:  spec -> code: every CASE's rotated 6x6 (built by TLC, never recomputed he
        tensors, random positive-definite orthorhombic tensors, Voigt averages of random / clustered /
        evolved textures built with pydrex.voigt_averages) and rotated by a random frame rotation;
        K, G, percent_anisotropy are compared with the spec's term program, the frame clauses with
-       the implementation's own unrotated output; eigen-gaps of d and v (numpy leaf on the spec's
-       functionals) are logged so that the law can exclude ill-conditioned axes (skipped and counted).
+       the implementation's own unrotated output; eigen-gaps of d and v and the eigenvector pairing
+       margin (numpy leaf on the spec's functionals) are logged so that the law can exclude
+       ill-conditioned axes (skipped and counted).
        Every evaluation becomes one ndjson line of integer measures (units 1e-12) judged by TLC.
 This file holds no formula of K, G, the isotropic vector, the 21-vector weights or the projectors:
 expected values, index maps, functionals and thresholds all come from Elastic.tla.
@@ -41,7 +42,8 @@ PID = "C12"
 WORKERS = int(os.environ.get("VERIF_TLC_WORKERS", "8") or 8)  # other checks share the machine
 PCT = ("percent_anisotropy", "percent_hexagonal", "percent_tetragonal", "percent_orthorhombic", "percent_monoclinic", "percent_triclinic")
 KEYS = ("bulk_modulus", "shear_modulus") + PCT + ("hexagonal_axis",)
-MKEYS = ("kDev", "gDev", "anisoDev", "rangeOut", "pctDev", "unitDev", "axisDev", "mono", "tric", "pyth", "gapD", "gapV")
+MKEYS = ("kDev", "gDev", "anisoDev", "rangeOut", "pctDev", "unitDev", "axisDev", "mono", "tric", "pyth", "gapD", "gapV", "pairGap")
+MARGINS = ("gapD", "gapV", "pairGap")
 ZERO_M = {k: 0 for k in MKEYS}
 BIG = 2_000_000_000
 
@@ -78,14 +80,16 @@ class Binding:
         return d, v
 
     def gaps(self, M):
-        """Smallest relative eigenvalue gap of the two contractions (numpy eigvalsh is a leaf)."""
-        out = []
-        for A in self.contractions(M):
-            if not np.all(np.isfinite(A)):
-                return 0.0, 0.0
-            w = np.linalg.eigvalsh((A + A.T) / 2)
-            out.append(float(np.min(np.diff(w)) / max(np.max(np.abs(w)), 1e-300)))
-        return tuple(out)
+        """Conditioning of the symmetry axes (numpy eigh is a leaf): smallest relative eigenvalue gap of the
+        two contractions, and the smallest margin by which an eigenvector of d has a unique nearest
+        eigenvector of v."""
+        d, v = self.contractions(M)
+        if not (np.all(np.isfinite(d)) and np.all(np.isfinite(v))):
+            return 0.0, 0.0, 0.0
+        (wd, ed), (wv, ev_) = np.linalg.eigh((d + d.T) / 2), np.linalg.eigh((v + v.T) / 2)
+        rel = [float(np.min(np.diff(w)) / max(np.max(np.abs(w)), 1e-300)) for w in (wd, wv)]
+        c = np.sort(np.abs(ed.T @ ev_), axis=1)
+        return rel[0], rel[1], float(np.min(c[:, 2] - c[:, 1]))
 
     def rotate6(self, M, Q):
         """Tensor law on a 6x6 with the spec's index maps (VoigtIdx / VoigtPair); float scenarios only."""
@@ -166,12 +170,11 @@ def project(b, sid, kind, cls, hex_tie, ref, rot, R, M_rot, expected, also_ref=N
         / max(1.0, float(o["percent_anisotropy"]) ** 2)
         for o in outs
     )
-    gd, gv = b.gaps(M_rot)
+    g = b.gaps(M_rot)
     if also_ref:
-        g2 = b.gaps(also_ref[0])
-        gd, gv = min(gd, g2[0]), min(gv, g2[1])
-    f["gapD"], f["gapV"] = gd, gv
-    ev["m"] = {k: cap(f[k] * (1e9 if k.startswith("gap") else 1e12)) for k in MKEYS}
+        g = tuple(min(x, y) for x, y in zip(g, b.gaps(also_ref[0])))
+    f["gapD"], f["gapV"], f["pairGap"] = g
+    ev["m"] = {k: cap(f[k] * (1e9 if k in MARGINS else 1e12)) for k in MKEYS}
     return ev, f
 
 
@@ -361,7 +364,7 @@ def main(tier):
     chk.cov["informational_vs_exact_cascade"] = info
 
     # ---- 2. code -> spec: float scenarios
-    reps = 10 if quick else 100
+    reps = 10 if quick else 250
     scs = float_scenarios(b, tex, scen, tier, reps)
     fouts = impl([s[2] for s in scs] + [s[3] for s in scs])
     for k, (sid, cls, A, B, Q) in enumerate(scs):
@@ -373,7 +376,7 @@ def main(tier):
 
     # ---- 3. negative controls riding in the same judge run
     ctl = []  # (event, expected bad list or None, expected skip membership or None, impl-dependent?)
-    clean = dict(sid="ctl/clean", kind="float", cls="ortho_random", hexTie=False, finite=True, m=dict(ZERO_M, gapD=50_000_000, gapV=50_000_000))
+    clean = dict(sid="ctl/clean", kind="float", cls="ortho_random", hexTie=False, finite=True, m=dict(ZERO_M, gapD=50_000_000, gapV=50_000_000, pairGap=900_000_000))
     ctl.append((clean, [], None, False))
     for field, clause in (("kDev", "bulk-modulus"), ("gDev", "shear-modulus"), ("anisoDev", "percent-anisotropy"), ("rangeOut", "anisotropy-outside-0-100"),
                           ("unitDev", "axis-not-unit"), ("pctDev", "percentages-change-under-rotation"), ("axisDev", "axis-does-not-corotate"),
@@ -394,6 +397,10 @@ def main(tier):
     e["sid"] = "ctl/excluded/gap-still-judges-moduli"
     e["m"].update(kDev=5_000, gapD=0)
     ctl.append((e, ["bulk-modulus"], "eigenvalues-not-separated", False))
+    e = json.loads(json.dumps(clean))
+    e["sid"] = "ctl/excluded/pairing"
+    e["m"].update(pctDev=BIG, axisDev=BIG, pairGap=10)
+    ctl.append((e, [], "eigenvector-pairing-ambiguous", False))
     e = json.loads(json.dumps(clean))
     e.update(sid="ctl/excluded/tie", hexTie=True)
     e["m"].update(axisDev=BIG, pctDev=BIG)
@@ -464,7 +471,8 @@ def main(tier):
             if k in f:
                 chk.maximum(f"{ev['kind']}_{k}", f[k])
         if f and not skips:
-            min_gap[ev["kind"]] = min(min_gap.get(ev["kind"], 1.0), f["gapD"], f["gapV"])
+            for k in MARGINS:
+                min_gap[ev["kind"] + "_" + k] = min(min_gap.get(ev["kind"] + "_" + k, 1.0), f[k])
         for cl in bad:
             sig = dict(level=ev["kind"], clause=cl, cls=ev["cls"])
             if mt["kind"] == "exact":
@@ -491,7 +499,7 @@ def main(tier):
     chk.cov["verdicts_by_class"] = stats
     for k in sorted(stats):
         print(f"C12 {k}: " + ", ".join(f"{a}={v}" for a, v in stats[k].items()))
-    chk.cov["smallest_relative_eigen_gap_among_judged_frame_clauses"] = min_gap
+    chk.cov["smallest_margins_among_judged_frame_clauses"] = min_gap
 
     # ---- 5. verdicts of the controls
     def impl_control(name, fired, detail=""):
